@@ -245,6 +245,7 @@ def mon_implicit_norton(R, libpath, name, g, ncase, spec):
     pname = spec.get("pname", "p")
     key = spec.get("key", name)
     robust = spec.get("algo") in ("NewtonRaphson", "NewtonRaphson_NumericalJacobian", "LevenbergMarquardt")
+    lit = spec.get("literals")
     for hyp in gbnp.hypotheses(lib, name):
         b = gbnp.B(lib, name, hyp)
         n = b.ns
@@ -258,7 +259,10 @@ def mon_implicit_norton(R, libpath, name, g, ncase, spec):
             eps = g.choice([1e-10, 1e-12, 1e-14])
             E = fixed.get("E") or g.choice([E0, round(g.uniform(1.0, 9.0), 3)])
             A = fixed.get("A") or 10 ** g.uniform(-2, 0) / (100e6 ** E)
-            for k, v in [("theta", theta), ("epsilon", eps)] + ([] if fixed else [("A", A), ("E", E)]):
+            if lit:
+                # variant whose constants are literals of the generated source: nothing is set at run time
+                theta, eps, A, E = lit["theta"], lit["epsilon"], lit["A"], lit["E"]
+            for k, v in [] if lit else ([("theta", theta), ("epsilon", eps)] + ([] if fixed else [("A", A), ("E", E)])):
                 if gbnp.set_parameter(lib, name, k, v, hyp=None) != 1:
                     raise RuntimeError("setParameter %s failed" % k)
             s0, eel0, p0, de, szz0 = norton_state(g, b, hyp, young, nu)
@@ -339,7 +343,10 @@ def mon_norton_creep(R, libpath, name, g, ncase, spec):
             eps = g.choice([1e-9, 1e-11, 1e-13])
             E = g.choice([8.2, round(g.uniform(1.0, 9.0), 3)])
             A = 10 ** g.uniform(-2, 0) / (100e6 ** E)
-            for k, v in (("theta", theta), ("epsilon", eps)):
+            lit = spec.get("literals")
+            if lit:
+                theta, eps = lit["theta"], lit["epsilon"]
+            for k, v in [] if lit else (("theta", theta), ("epsilon", eps)):
                 if gbnp.set_parameter(lib, name, k, v) != 1:
                     raise RuntimeError("setParameter %s failed" % k)
             s0, eel0, p0, de, _ = norton_state(g, b, hyp, young, nu)
@@ -420,6 +427,12 @@ def mon_plasticity(R, libpath, name, g, ncase, spec):
             s0y = g.uniform(20e6, 500e6)
             H = g.choice([0.0, g.uniform(0, 0.1) * young])
             pars = [("theta", theta), ("epsilon", eps)] + ([("s0", s0y), ("Hp", H)] if brick else [])
+            lit = spec.get("literals")
+            if lit:
+                theta, eps = lit["theta"], lit["epsilon"]
+                if brick:
+                    s0y, H = lit["s0"], lit["Hp"]
+                pars = []
             for k, v in pars:
                 if gbnp.set_parameter(lib, name, k, v) != 1:
                     raise RuntimeError("setParameter %s failed" % k)
@@ -511,7 +524,10 @@ def mon_brick_norton(R, libpath, name, g, ncase, spec):
             eps = g.choice([1e-10, 1e-12, 1e-14])
             E = g.choice([3.2, round(g.uniform(1.0, 8.0), 3)])
             Kn = g.uniform(50e6, 300e6)
-            for k, v in (("theta", theta), ("epsilon", eps), ("Kn", Kn), ("En", E)):
+            lit = spec.get("literals")
+            if lit:
+                theta, eps, Kn, E = lit["theta"], lit["epsilon"], lit["Kn"], lit["En"]
+            for k, v in [] if lit else (("theta", theta), ("epsilon", eps), ("Kn", Kn), ("En", E)):
                 if gbnp.set_parameter(lib, name, k, v) != 1:
                     raise RuntimeError("setParameter %s failed" % k)
             A = 1.0 / Kn ** E
@@ -629,7 +645,9 @@ def mon_norton_rk(R, libs, g, ncase):
             yref, eref = rk_reference(f, y0, dt)
             for b, nm, sp in bs:
                 eps = g.choice([1e-10, 1e-11, 1e-12])
-                if gbnp.set_parameter(b.lib, nm, "epsilon", eps) != 1:
+                if sp.get("literals"):
+                    eps = sp["literals"]["epsilon"]
+                elif gbnp.set_parameter(b.lib, nm, "epsilon", eps) != 1:
                     raise RuntimeError("setParameter epsilon failed")
                 isv0 = b.pack_isv(ElasticStrain=eel0, p=p0, evp=evp0)
                 mp = b.pack_mp(YoungModulus=young, PoissonRatio=nu, A=A, E=E)
